@@ -284,6 +284,19 @@ func (w *haltWorld) runClient(cs M) (submit, res, msg, pre, post string) {
 	case "sametype", "expired":
 		a, b := w.validStates(ty)
 		execIn(c, outer, clientProposal("Create", name, a, b, false))
+	case "foreigncons":
+		// a client of the type, then an upgrade that keeps a valid client state of the type but carries the consensus state of
+		// another light-client type (with the same fields where the types have them)
+		a, b := w.validStates(ty)
+		execIn(c, outer, clientProposal("Create", name, a, b, false))
+		var foreign exported.ConsensusState = &tsstypes.ConsensusState{}
+		switch x := b.(type) {
+		case *bsctypes.ConsensusState:
+			foreign = &ethtypes.ConsensusState{Timestamp: x.Timestamp, Height: x.Height, Root: x.Root}
+		case *ethtypes.ConsensusState:
+			foreign = &bsctypes.ConsensusState{Timestamp: x.Timestamp, Height: x.Height, Root: x.Root}
+		}
+		execIn(c, outer, clientProposal("Upgrade", name, a, foreign, false))
 	case "othertype":
 		other := "tss"
 		if ty == "tss" {
